@@ -194,6 +194,12 @@ func (w *World) createIndex(ix IndexSpec) error {
 			return err
 		}
 	}
+	for i, old := range w.M.Idx {
+		if old.Name == ix.Name {
+			w.M.Idx = append(append([]IndexSpec{}, w.M.Idx[:i]...), w.M.Idx[i+1:]...) // re-defined under the same name
+			break
+		}
+	}
 	w.M.Idx = append(w.M.Idx, ix)
 	return nil
 }
